@@ -609,6 +609,7 @@ pub fn jobs(pn: u32, tier: Tier) -> Vec<Job> {
                 v.push(job(&format!("set-{}", coll), random(ord_clear_cases(id, "set", coll, if coll == "tree" { vec!["u64", "string", "wide", "big"] } else { vec!["u64", "string", "wide"] }, vec![6, 16, 40]), n(4_000, 100_000)), rule.clone(), if coll == "tree" { &req } else { &req[..1] }));
             }
             v.push(job("seg", random(seg_clear_cases(id), n(5_000, 120_000)), Rule::all("prefix left >=3 values (>=1 expired) and the suffix made >=5 twin observations", &["clear_ge_3_stored", "clear_with_expired_stored", "twin_obs_ge_5"]), &["clock_restarted_earlier", "clear_empty"]));
+            v.push(job("seg-expire-partial-queries-clear", random(seg_expire_partial_clear_cases(id), n(4_000, 100_000)), Rule::all("values expired before the clear, an abandoned query among the operations before it, >=3 twin observations after it", &["clear_with_expired_stored", "iterator_dropped_midway", "twin_started"]), &["clock_restarted_earlier"]));
             // big prefixes: arenas grown several times, long bucket lists
             for coll in ["tree", "list"] {
                 v.push(job(&format!("key-{}-big-prefix", coll), random(key_clear_cases_sized(id, coll, vec![300, 3000], 1500, 30, 150..=600), n(120, 3_000)), Rule::all("prefix left >=3 entries and the suffix made >=5 twin observations", &["clear_ge_3_stored", "twin_obs_ge_5"]), &[]));
